@@ -250,3 +250,11 @@ func ReplayMain() {
 // LenOnly returns a slice of n elements of which only the length is meaningful: under the VM n may be symbolic
 // and any element access aborts the path; natively it is make([]T, n).  Used for size-accounting lemmas (C14).
 func LenOnly[T any](n int) []T { return make([]T, n) }
+
+// FrozenCopy returns a copy of b that the callee must never write: under the VM the backing object is write-protected
+// (a store terminates the path as a violation); natively the copy lives in an anonymous mapping that is mprotect'ed
+// PROT_READ, so a write faults (turned into a panic by debug.SetPanicOnFault) - the real thing, not a stand-in.
+func FrozenCopy(b []byte) []byte { return frozenCopy(b) }
+
+// Thaw makes a FrozenCopy writable again (the caller reuses its buffer).
+func Thaw(b []byte) { thaw(b) }
